@@ -818,6 +818,10 @@ func (g *apiGen) fieldVal() interface{} {
 		}
 		return bson.D{{Key: "x", Value: g.scalar()}, {Key: "q", Value: bson.A{g.scalar(), g.scalar()}}}
 	}
+	if (g.full || g.fullU) && g.r.chance(1, 7) {
+		// arrays directly inside arrays (targets of "a.0.1", "a.1.0"): a deep copy must reach them
+		return bson.A{bson.A{int32(g.r.intn(3) + 1), int32(g.r.intn(3) + 1)}, bson.A{g.scalar(), int32(4)}}
+	}
 	if g.r.chance(1, 5) {
 		n := g.r.intn(3)
 		a := bson.A{}
@@ -829,12 +833,20 @@ func (g *apiGen) fieldVal() interface{} {
 	return g.scalar()
 }
 
-func (g *apiGen) doc(withID bool) bson.D {
-	d := bson.D{}
+func (g *apiGen) doc(withID bool) (d bson.D) {
+	d = bson.D{}
 	if withID {
 		id := g.id()
 		g.knownIDs = append(g.knownIDs, id)
 		d = append(d, bson.E{Key: "_id", Value: id})
+	}
+	if (g.full || g.fullU) && g.r.chance(1, 6) {
+		// the 4th column of the wide compound indexes
+		var e interface{} = g.scalar()
+		if g.r.chance(1, 2) {
+			e = bson.A{g.scalar(), g.scalar(), int32(g.r.intn(3) + 1)}
+		}
+		defer func() { d = append(d, bson.E{Key: "d", Value: bson.D{{Key: "e", Value: e}}}) }()
 	}
 	for _, k := range []string{"a", "b", "c"} {
 		if k == g.uniqField && g.r.chance(1, 2) {
@@ -910,7 +922,7 @@ func (g *apiGen) fullUpdate() bson.D {
 			return bson.D{{Key: "$addToSet", Value: bson.D{{Key: f, Value: int32(r.intn(3) + 1)}}}}
 		}
 	}
-	f := pick(r, []string{"a", "b", "c", "a", "b", "c", "_id", "d.e", "a.0", "c.x", "a.0.q", "a.0.q", "a.1.r.0", "b.q.1", "a.$[].q", "a.$[].q", "c.q"})
+	f := pick(r, []string{"a", "b", "c", "a", "b", "c", "_id", "d.e", "a.0", "c.x", "a.0.q", "a.0.q", "a.1.r.0", "b.q.1", "a.$[].q", "a.$[].q", "c.q", "a.0.1", "a.1.0", "b.0.1", "a.0.1", "b.1.0", "c.0.1"})
 	var v interface{} = g.scalar()
 	if f == "_id" {
 		v = g.id()
@@ -1077,6 +1089,13 @@ func (g *apiGen) indexSpec() string {
 	}
 	if r.chance(1, 30) {
 		key = bson.D{}
+	}
+	if r.chance(1, 12) {
+		// wide compound key: four columns, the last one often holds arrays
+		key = bson.D{{Key: "a", Value: int32(1)}, {Key: "b", Value: int32(1)}, {Key: "c", Value: int32(-1)}, {Key: "d.e", Value: int32(1)}}
+		if r.chance(1, 2) {
+			key = bson.D{{Key: "c", Value: int32(1)}, {Key: "b", Value: int32(-1)}, {Key: "a", Value: int32(1)}, {Key: "d.e", Value: int32(1)}}
+		}
 	}
 	name := ""
 	if r.chance(1, 4) {
@@ -1258,6 +1277,34 @@ func genAPIMode(r *rng, full bool) string {
 	}
 	for i := 0; i < n; i++ {
 		parts = append(parts, g.call())
+	}
+	if r.chance(1, 12) {
+		// a session transaction whose last statement is a find-one-and-modify with a
+		// projection that fails on the returned document: the statement is
+		// reverted, the earlier writes of the transaction are committed
+		if g.openSess > 0 {
+			parts = append(parts, "(abort "+strconv.FormatInt(g.openSess, 10)+")")
+			g.openSess = 0
+		}
+		g.nextSess++
+		sid := strconv.FormatInt(g.nextSess, 10)
+		t := hx(apiDbs[0]) + " " + hx(apiColls[0])
+		parts = append(parts, "(start "+sid+")")
+		parts = append(parts, "(insertOne "+sid+" "+t+" "+enc(bson.D{{Key: "_id", Value: "tail"}, {Key: "a", Value: int32(100 + r.intn(5))}, {Key: "b", Value: int32(7)}})+")")
+		if r.chance(1, 2) {
+			parts = append(parts, "(update "+sid+" "+t+" one "+enc(bson.D{{Key: "_id", Value: "tail"}})+" "+enc(bson.D{{Key: "$set", Value: bson.D{{Key: "c", Value: int32(1)}}}})+" F ())")
+		}
+		bad := enc(bson.D{{Key: "a", Value: int32(1)}, {Key: "b", Value: int32(0)}})
+		switch r.intn(3) {
+		case 0:
+			parts = append(parts, "(fau "+sid+" "+t+" "+enc(bson.D{{Key: "_id", Value: "tail"}})+" "+enc(bson.D{{Key: "$set", Value: bson.D{{Key: "b", Value: int32(8)}}}})+" NIL "+bad+" F "+tf(r.chance(1, 2))+" ())")
+		case 1:
+			parts = append(parts, "(far "+sid+" "+t+" "+enc(bson.D{{Key: "_id", Value: "tail"}})+" "+enc(bson.D{{Key: "b", Value: int32(9)}})+" NIL "+bad+" F "+tf(r.chance(1, 2))+")")
+		default:
+			parts = append(parts, "(fad "+sid+" "+t+" "+enc(bson.D{{Key: "_id", Value: "tail"}})+" NIL "+bad+")")
+		}
+		parts = append(parts, "(commit "+sid+")")
+		parts = append(parts, "(find 0 "+t+" (D) NIL NIL 0 0)")
 	}
 	return "(" + strings.Join(parts, " ") + ")"
 }
